@@ -16,6 +16,7 @@ BATCH = 150
 EXT = {"python": "py", "javascript": "js", "java": "java", "c": "c", "php": "php", "go": "go"}
 
 
+TESTED = {"if", "if-else", "while", "while-else", "cfor", "dowhile"}
 CLASS_OPS = ("class_decl", "interface_decl", "record_decl", "enum_decl", "struct_decl")
 
 
@@ -212,7 +213,7 @@ def run_batch(batch):
 
 
 def make_batches(quick):
-    langs = ["python", "javascript", "java", "c", "php"]       # Go: its frontend emits `return` outside the vocabulary (C02)
+    langs = ["python", "javascript", "java", "c", "php", "go"]
     for lang in langs:
         fam = "python" if lang == "python" else "c"
         maxc = 2
@@ -229,14 +230,20 @@ def make_batches(quick):
                     and feats <= skel.C_ONLY | {"break", "continue", "return", "if", "while"}
                     and ("switch" not in feats or "continue" in feats)):
                 continue        # quick: C-family languages get all 1-compound skeletons and the loop/switch x jump pairs
-            variants = [True] if nc > 1 else [True, False]       # 0/1-compound skeletons also as parameterless methods
-            for params in variants:
+            # 0/1-compound skeletons also as parameterless methods; skeletons with a test also with every test rendered as a
+            # comparison, whose value is computed by statements of its own before the test (quick: 0/1-compound only)
+            variants = [(True, False)] if nc > 1 else [(True, False), (False, False)]
+            if lang == "go":
+                variants = [(True, False)]          # (no parameterless rendering for Go)
+            if feats & TESTED and (nc <= 1 or not quick):
+                variants.append((True, True))
+            for params, cmp in variants:
                 name = f"entry_{i}"
                 i += 1
-                src = skel.render_python(name, body, params) if lang == "python" else skel.render_c_family(name, body, lang, params)
+                src = skel.render_python(name, body, params, cmp) if lang == "python" else skel.render_c_family(name, body, lang, params, cmp)
                 cur_src.append(src)
                 cur_methods.append((name, 2 if params else 0))
-                cur_meta.append((feats | (set() if params else {"noparams"}), nc, src))
+                cur_meta.append((feats | (set() if params else {"noparams"}) | ({"cmp-test"} if cmp else set()), nc, src))
             if len(cur_src) >= BATCH:
                 nbatch += 1
                 yield {"lang": lang, "source": skel.wrap_file(lang, cur_src), "methods": cur_methods, "meta": cur_meta,
